@@ -1,4 +1,5 @@
 import SamplyModel.Lemmas.ConvStacks
+import SamplyModel.Model.SvmaBias
 /-!
 # C02 — frames are attributed to the library mapped at that address at sample time
 
@@ -126,3 +127,57 @@ example : resolveDecl C02_exQ 20 0x2800 = some ⟨0x2000, 0x3000, 0x100, "b"⟩ 
 example : resolveDecl C02_exQ 25 0x4000 = none := by decide
 example : expectFrame C02_exQ 30 (.ret 0x5000 false) = .raw 0x4fff := by decide
 example : expectFrame C02_exQ 30 (.ip 0x5000 false) = .lib "c" 0 := by decide
+
+/-! ## Segment-based attribution (the mapped file is present on disk)
+
+Model: `Model/SvmaBias.lean`. The relative start of a mapping is the stated address (SVMA) of the file
+byte at the mapping's first page minus the image base — computed through the first segment that encompasses
+the mapped file range (or is encompassed by it), so SVMA gaps between segments are honoured. -/
+
+/-- If the reference contribution `c` lies at or before the mapping in the file (it encompasses the mapped
+range, the usual case) and nothing wraps, then `relStart + baseSvma + c.fileOff = c.svma + off`, i.e.
+`relStart = svma(first mapped byte) − baseSvma`; hence for every address `a` of the mapping
+`relStart + (a − start) = c.svma + (fileOffset(a) − c.fileOff) − baseSvma` with
+`fileOffset(a) = off + (a − start)`. -/
+theorem C02_bias (fi : SvmaBias.FileInfo) (off avma size : Nat) (c : SvmaBias.Contribution)
+    (hc : SvmaBias.refContribution fi.contribs off size = some c) (hle : c.fileOff ≤ off)
+    (h1 : off - c.fileOff ≤ avma) (h2 : avma < SvmaBias.U64)
+    (h3 : c.svma ≤ avma - (off - c.fileOff))
+    (h4 : fi.baseSvma ≤ c.svma + (off - c.fileOff))
+    (h5 : c.svma + (off - c.fileOff) - fi.baseSvma < 2 ^ 32) :
+    ∃ r, SvmaBias.relStart fi off avma size = .ok r ∧ r + fi.baseSvma + c.fileOff = c.svma + off := by
+  have hU : SvmaBias.U64 = 18446744073709551616 := by decide
+  have hP : (2 : Nat) ^ 32 = 4294967296 := by decide
+  have hng : ¬ c.fileOff > off := by omega
+  have hnl : ¬ avma < off - c.fileOff := by omega
+  -- bias = avma − (off − c.fileOff) − c.svma, exactly
+  have hbias : (avma - (off - c.fileOff) + SvmaBias.U64 - c.svma) % SvmaBias.U64
+      = avma - (off - c.fileOff) - c.svma := by
+    have : avma - (off - c.fileOff) + SvmaBias.U64 - c.svma
+        = (avma - (off - c.fileOff) - c.svma) + SvmaBias.U64 := by omega
+    rw [this, Nat.add_mod_right, Nat.mod_eq_of_lt (by omega)]
+  have hbase : (fi.baseSvma + (avma - (off - c.fileOff) - c.svma)) % SvmaBias.U64
+      = fi.baseSvma + (avma - (off - c.fileOff) - c.svma) := Nat.mod_eq_of_lt (by omega)
+  refine ⟨avma - (fi.baseSvma + (avma - (off - c.fileOff) - c.svma)), ?_, by omega⟩
+  unfold SvmaBias.relStart SvmaBias.computeBias
+  simp only [hc, hng, hnl, if_false, hbias, hbase]
+  have hnb : ¬ fi.baseSvma + (avma - (off - c.fileOff) - c.svma) > avma := by omega
+  simp only [hnb, if_false]
+  congr 1
+  exact Nat.mod_eq_of_lt (by omega)
+
+/-- No reference contribution ⇒ the mapping is not added at all (the frames stay raw). -/
+theorem C02_bias_not_found (fi : SvmaBias.FileInfo) (off avma size : Nat)
+    (hc : SvmaBias.refContribution fi.contribs off size = none) :
+    SvmaBias.relStart fi off avma size = .notFound := by
+  simp [SvmaBias.relStart, SvmaBias.computeBias, hc]
+
+/-! ### Non-vacuity: the "hard case" of svma_file_range.rs (SVMA gap between segments) and the repo's own
+unit-test vector -/
+def C02_jsSegments : List SvmaBias.Contribution :=
+  [⟨0x0, 0x0, 0x14bd0bc⟩, ⟨0x14be0c0, 0x14bd0c0, 0xf5bf60⟩, ⟨0x241b020, 0x2419020, 0x08e920⟩, ⟨0x24aa940, 0x24a7940, 0x002d48⟩]
+
+example : SvmaBias.computeBias C02_jsSegments 0x14bd0c0 0x100014be0c0 0xf5bf60 = .ok 0x10000000000 := by decide
+example : SvmaBias.computeBias C02_jsSegments 0x14bd000 0x55d605384000 0xf5d000 = .ok 0x55d603ec6000 := by decide
+example : SvmaBias.relStart ⟨0, [⟨0, 0, 0x2000⟩, ⟨0x3000, 0x2000, 0x3000⟩]⟩ 0x2000 0x7f0000003000 0x3000 = .ok 0x3000 := by
+  decide
